@@ -472,6 +472,18 @@ func cmdCheck(repo, verif, prop, tier string) int {
 		}
 		if !claimed {
 			if o.Status != "discharged" {
+				// outside the claim (a safety obligation that is new or was not discharged on the
+				// unchanged tree): it alarms only when a stored scenario for this obligation fails
+				// on the real code — a refutation is trusted when it replays, never on its own
+				if hasReplay(c, o) {
+					var rb strings.Builder
+					if runReplay(c, o, &rb) {
+						violate(o.Name, "the obligation is not discharged ("+o.Status+") and the stored scenario for it fails on the real code", o)
+						rep.Status += " (outside the claim; replay confirmed)"
+						reports = append(reports, rep)
+						continue
+					}
+				}
 				undecidedNew = append(undecidedNew, o.Name+" ["+o.Status+"]")
 			}
 			rep.Status += " (outside the claim)"
